@@ -44,29 +44,52 @@ Plain(b) ==
 Pad(k) == IF k = 0 THEN <<>> ELSE IF k = 1 THEN <<32>> ELSE <<9, 32, 10>>
 CtrlChar(k) == IF k % 4 = 1 THEN 0 ELSE IF k % 4 = 2 THEN 133 ELSE IF k % 4 = 3 THEN 127 ELSE 9
 
-RenderNoCtrl(u) ==
+\* Extras: further variations used by the normalize / fingerprint machines (C03-C06);
+\* NoExtras leaves the URL as the C02 machine spells it.
+NoExtras == [schf |-> 0, ui |-> 0, sub |-> <<>>, ampdash |-> FALSE, tsx |-> FALSE, idx |-> <<>>, pf |-> <<>>,
+             ins |-> <<>>, perm |-> <<>>, ampent |-> FALSE, port |-> <<>>, upc |-> {}]
+\* insert the (pos, text) pairs of ins into the rendered item list (pos = number of items before it)
+RECURSIVE InsertAll(_, _)
+InsertAll(items, ins) == IF ins = <<>> THEN items
+                         ELSE LET p == IF ins[1][1] > Len(items) THEN Len(items) ELSE ins[1][1]
+                              IN InsertAll(SubSeq(items, 1, p) \o <<ins[1][2]>> \o SubSeq(items, p + 1, Len(items)), SubSeq(ins, 2, Len(ins)))
+UpIf(s, c, x) == IF c \in x.upc THEN Upper(s) ELSE s
+RenderWith(u, x) ==
   LET B == Bases[u.b]
-      scheme == CaseAscii(B.scheme, u.sc)
-      auth == IF ~B.hasuser THEN <<>>
-              ELSE RenderText(u.user) \o (IF B.haspass THEN <<58>> \o RenderText(u.pass) ELSE <<>>) \o <<64>>
-      host == JoinWith([i \in 1..Len(B.host) |-> RenderLabel(B.host[i], i \in u.pu, u.hc)], 46)
-      port == IF B.port # <<>> THEN <<58>> \o B.port
-              ELSE IF u.dp THEN (IF B.scheme = <<104,116,116,112>> THEN <<58,56,48>> ELSE <<58,52,52,51>>) ELSE <<>>
+      other == IF B.scheme = <<104,116,116,112>> THEN <<104,116,116,112,115>> ELSE <<104,116,116,112>>
+      scheme == IF x.schf = 0 THEN CaseAscii(B.scheme, u.sc) \o <<58,47,47>>
+                ELSE IF x.schf = 1 THEN CaseAscii(other, u.sc) \o <<58,47,47>>
+                ELSE IF x.schf = 2 THEN <<>> ELSE <<47,47>>
+      auth == IF B.hasuser THEN RenderText(u.user) \o (IF B.haspass THEN <<58>> \o RenderText(u.pass) ELSE <<>>) \o <<64>>
+              ELSE IF x.ui = 1 THEN <<117,115,101,114,64>> ELSE IF x.ui = 2 THEN <<117,115,101,114,58,112,119,64>> ELSE <<>>
+      labels == [i \in 1..Len(B.host) |-> RenderLabel(B.host[i], i \in u.pu, u.hc)]
+      labels2 == IF x.ampdash THEN <<CaseAscii(<<97,109,112,45>>, u.hc) \o labels[1]>> \o SubSeq(labels, 2, Len(labels)) ELSE labels
+      host == JoinWith([i \in 1..Len(x.sub) |-> CaseAscii(x.sub[i], u.hc)] \o labels2, 46)
+      port == IF x.port # <<>> THEN <<58>> \o x.port
+              ELSE IF B.port # <<>> THEN <<58>> \o B.port
+              ELSE IF u.dp THEN (IF (B.scheme = <<104,116,116,112>>) = (x.schf # 1) THEN <<58,56,48>> ELSE <<58,52,52,51>>) ELSE <<>>
       dot(k) == IF k = 0 THEN <<47>> ELSE IF k = 1 THEN <<47,46,47>> ELSE IF k = 2 THEN <<47,120,47,46,46,47>> ELSE <<47,47>>
       rootForm(k) == IF k = 0 THEN <<>> ELSE IF k = 1 THEN <<47>> ELSE IF k = 2 THEN <<47,120,47,46,46>>
                      ELSE IF k = 3 THEN <<47,46,47>> ELSE <<47,120,47,46,46,47>>      \* "" / /x/.. /./ /x/../
-      path == IF u.segs = <<>> THEN rootForm(u.root)
-              ELSE FlattenSeq([i \in 1..Len(u.segs) |-> dot(u.dots[i]) \o RenderText(u.segs[i])])
-                   \o (IF B.trailing THEN <<47>> ELSE <<>>)
+      trailing == IF x.tsx THEN ~B.trailing ELSE B.trailing
+      path0 == IF u.segs = <<>> THEN rootForm(u.root)
+               ELSE FlattenSeq([i \in 1..Len(u.segs) |-> dot(u.dots[i]) \o RenderText(u.segs[i])])
+                    \o (IF trailing THEN <<47>> ELSE <<>>)
+      path == UpIf(IF x.idx = <<>> THEN path0
+                   ELSE (IF path0 # <<>> /\ path0[Len(path0)] = 47 THEN path0 ELSE path0 \o <<47>>) \o x.idx, "path", x)
       item(it) == RenderText(it[1]) \o (IF it[2] THEN <<61>> \o RenderText(it[3]) ELSE <<>>)
-      query == IF u.items # <<>> THEN <<63>> \o JoinWith([i \in 1..Len(u.items) |-> item(u.items[i])], 38)
-               ELSE IF u.eq THEN <<63>> ELSE <<>>
-      frag == IF B.hasfrag THEN <<35>> \o RenderText(u.frag) ELSE IF u.ef THEN <<35>> ELSE <<>>
-  IN Pad(u.pl) \o scheme \o <<58,47,47>> \o auth \o host \o port \o path \o query \o frag \o Pad(u.pr)
-Render(u) ==
-  LET s == RenderNoCtrl(u) IN
+      base_items == [i \in 1..Len(u.items) |-> item(u.items[IF x.perm = <<>> THEN i ELSE x.perm[i]])]
+      all_items == InsertAll(base_items, x.ins)
+      sep == IF x.ampent THEN <<38,97,109,112,59>> ELSE <<38>>
+      query == UpIf(IF all_items # <<>> THEN <<63>> \o FlattenSeq([i \in 1..Len(all_items) |-> IF i = 1 THEN all_items[i] ELSE sep \o all_items[i]])
+                    ELSE IF u.eq THEN <<63>> ELSE <<>>, "query", x)
+      frag == UpIf(IF B.hasfrag THEN <<35>> \o RenderText(u.frag) ELSE IF x.pf # <<>> THEN <<35>> \o x.pf ELSE IF u.ef THEN <<35>> ELSE <<>>, "frag", x)
+  IN Pad(u.pl) \o scheme \o auth \o host \o port \o path \o query \o frag \o Pad(u.pr)
+WithCtrl(u, s) ==
   IF u.ct = 0 THEN s
   ELSE LET pos == ((u.ct * Len(s)) \div 4) IN SubSeq(s, 1, pos) \o <<CtrlChar(u.ct)>> \o SubSeq(s, pos + 1, Len(s))
+RenderX(u, x) == WithCtrl(u, RenderWith(u, x))
+Render(u) == RenderX(u, NoExtras)
 
 \* ------------------------------------------------------------------ the rewrites
 MapAt(t, i, F(_)) == [j \in 1..Len(t) |-> IF j = i THEN F(t[j]) ELSE t[j]]
